@@ -271,7 +271,7 @@ Proof.
   intros ->. reflexivity.
 Qed.
 
-Ltac crunch_fr := cbv -[as_strs decode mk_rel j_valid choices_init j_bound canon_bd].
+Ltac crunch_fr := cbn -[as_strs decode mk_rel j_valid choices_init j_bound canon_bd].
 
 Lemma from_dict_funcresult n f : wf_fr f ->
   from_dict_n not_none (S n) "FuncResult" (funcresult_json f) = Ok (AFuncResult (canon_fr f)).
@@ -313,9 +313,156 @@ Proof.
   (destruct b as [b|]; [pose proof (HB b eq_refl) as HB1|]; clear HB);
   cbn [option_map opt_entry app];
   destruct na, fl, co;
-  crunch_fr; rewrite HV; crunch_fr;
-  repeat first [ rewrite HR1; crunch_fr; rewrite HR2; crunch_fr
+  crunch_fr; change (as_strs (VJ (jarr []))) with (@Ok (list string) []); crunch_fr;
+  rewrite HV; crunch_fr;
+  repeat first [ rewrite HV; crunch_fr | rewrite as_strs_jstrs; crunch_fr
+               | rewrite HR1; crunch_fr; rewrite HR2; crunch_fr
                | rewrite HC1; crunch_fr; rewrite HC2; crunch_fr
                | rewrite HB1; crunch_fr ];
   reflexivity.
+Qed.
+
+(* ------------------------------------------------------------------ Result *)
+
+Definition result_json (r : Result) : json :=
+  jobj ([("start_time", jnum (rs_start r)); ("end_time", jnum (rs_end r))]
+        ++ opt_entry "program" (option_map program_json (rs_program r))
+        ++ match rs_loops r with
+           | [] => []
+           | ls => [("loops", jobj (map (fun kv => (fst kv, funcloops_json (snd kv))) ls))]
+           end
+        ++ match rs_relations r with
+           | [] => []
+           | fs => [("relations", jobj (map (fun kv => (fst kv, funcresult_json (snd kv))) fs))]
+           end).
+
+Definition canon_rs (r : Result) : Result :=
+  mkRS (rs_start r) (rs_end r) (rs_program r)
+       (map (fun kv => (fst kv, canon_fr (snd kv))) (rs_relations r))
+       (map (fun kv => (fst kv, canon_fl (snd kv))) (rs_loops r)).
+
+Definition wf_rs (r : Result) : Prop :=
+  rs_program r <> None /\
+  NoDup (map fst (rs_relations r)) /\
+  Forall (fun kv => fr_name (snd kv) = Some (fst kv) /\ wf_fr (snd kv)) (rs_relations r) /\
+  NoDup (map fst (rs_loops r)) /\
+  Forall (fun kv => fl_name (snd kv) = Some (fst kv) /\ wf_fl (snd kv)) (rs_loops r).
+
+Lemma to_dict_result n r : wf_rs r ->
+  to_dict_n (S (S (S (S n)))) (AResult r) = Ok (result_json r).
+Proof.
+  destruct r as [st en pg fs ls]. unfold wf_rs, result_json.
+  cbn [rs_program rs_relations rs_loops rs_start rs_end]. intros (Hp & Hnf & Hwf & Hnl & Hwl).
+  destruct pg as [p|]; [clear Hp | congruence].
+  change (to_dict_n (S (S (S (S n))))) with (to_dict_step (to_dict_n (S (S (S n))))).
+  unfold to_dict_step, ser_to_dict.
+  assert (HF : forall x : string * FuncResult, In x fs ->
+               to_dict_n (S (S (S n))) (AFuncResult (snd x)) = Ok (funcresult_json (snd x)))
+    by (intros; apply to_dict_funcresult).
+  assert (HL : forall x : string * FuncLoops, In x ls ->
+               to_dict_n (S (S (S n))) (AFuncLoops (snd x)) = Ok (funcloops_json (snd x))).
+  { intros x Hx. rewrite Forall_forall in Hwl. apply to_dict_funcloops, Hwl, Hx. }
+  destruct fs as [|f0 fs]; destruct ls as [|l0 ls];
+    cbn -[to_dict_n dict_of dmerge]; rewrite to_dict_program; cbn [bind].
+  - reflexivity.
+  - rewrite (HL l0) by (now left). cbn [bind].
+    rewrite (map_res_children (to_dict_n (S (S (S n)))) AFuncLoops funcloops_json ls)
+      by (intros; apply HL; now right).
+    cbn [bind concat app].
+    rewrite (dict_of_nodup ((fst l0, funcloops_json (snd l0)) :: _)); [reflexivity|].
+    cbn [map fst]. rewrite map_map. exact Hnl.
+  - rewrite (HF f0) by (now left). cbn [bind].
+    rewrite (map_res_children (to_dict_n (S (S (S n)))) AFuncResult funcresult_json fs)
+      by (intros; apply HF; now right).
+    cbn [bind concat app].
+    rewrite (dict_of_nodup ((fst f0, funcresult_json (snd f0)) :: _)); [reflexivity|].
+    cbn [map fst]. rewrite map_map. exact Hnf.
+  - rewrite (HL l0) by (now left). cbn [bind].
+    rewrite (map_res_children (to_dict_n (S (S (S n)))) AFuncLoops funcloops_json ls)
+      by (intros; apply HL; now right).
+    cbn [bind].
+    rewrite (HF f0) by (now left). cbn [bind].
+    rewrite (map_res_children (to_dict_n (S (S (S n)))) AFuncResult funcresult_json fs)
+      by (intros; apply HF; now right).
+    cbn [bind concat app].
+    rewrite (dict_of_nodup ((fst l0, funcloops_json (snd l0)) :: _)),
+            (dict_of_nodup ((fst f0, funcresult_json (snd f0)) :: _)); [reflexivity| |].
+    + cbn [map fst]. rewrite map_map. exact Hnf.
+    + cbn [map fst]. rewrite map_map. exact Hnl.
+Qed.
+
+Lemma program_json_nonempty p : exists d D, program_json p = jobj (d :: D).
+Proof. eexists. eexists. reflexivity. Qed.
+
+Ltac load_children cls G F Hv Hk Hnd isx inj canon l :=
+  rewrite (children_values _ cls G F l Hv); cbn [bind];
+  rewrite (children_keys F l Hk); cbn [bind];
+  rewrite combine_keys, (dict_of_nodup _ Hnd);
+  cbn -[from_dict_n];
+  rewrite (all_of_d_children isx inj canon l) by reflexivity;
+  cbn -[from_dict_n].
+
+Lemma from_dict_result n r : wf_rs r ->
+  from_dict_n not_none (S (S (S (S n)))) "Result" (result_json r) = Ok (AResult (canon_rs r)).
+Proof.
+  destruct r as [st en pg fs ls]. unfold wf_rs, result_json, canon_rs.
+  cbn [rs_program rs_relations rs_loops rs_start rs_end]. intros (Hp & Hnf & Hwf & Hnl & Hwl).
+  destruct pg as [p|]; [clear Hp | congruence].
+  change (from_dict_n not_none (S (S (S (S n))))) with (from_dict_step (from_dict_n not_none (S (S (S n)))) not_none).
+  pose proof (from_dict_program (S (S n)) p) as HP.
+  destruct (program_json_nonempty p) as (dp & DP & EP).
+  (* children facts *)
+  assert (HkF : forall x : string * FuncResult, In x fs ->
+                getattr (AFuncResult (canon_fr (snd x))) "name" = Ok (VJ (jstr (fst x)))).
+  { intros x Hx. rewrite Forall_forall in Hwf. destruct (Hwf x Hx) as [Hname _].
+    unfold getattr. cbn. now rewrite Hname. }
+  assert (HvF : forall x : string * FuncResult, In x fs ->
+                from_dict_n not_none (S (S (S n))) "FuncResult" (funcresult_json (snd x))
+                = Ok (AFuncResult (canon_fr (snd x)))).
+  { intros x Hx. rewrite Forall_forall in Hwf. destruct (Hwf x Hx) as [_ Hw]. now apply from_dict_funcresult. }
+  assert (HnF : NoDup (map fst (map (fun kv : string * FuncResult => (fst kv, AFuncResult (canon_fr (snd kv)))) fs)))
+    by (rewrite map_map; exact Hnf).
+  assert (HkL : forall x : string * FuncLoops, In x ls ->
+                getattr (AFuncLoops (canon_fl (snd x))) "name" = Ok (VJ (jstr (fst x)))).
+  { intros x Hx. rewrite Forall_forall in Hwl. destruct (Hwl x Hx) as [Hname _].
+    unfold getattr. cbn. now rewrite Hname. }
+  assert (HvL : forall x : string * FuncLoops, In x ls ->
+                from_dict_n not_none (S (S (S n))) "FuncLoops" (funcloops_json (snd x))
+                = Ok (AFuncLoops (canon_fl (snd x)))).
+  { intros x Hx. rewrite Forall_forall in Hwl. destruct (Hwl x Hx) as [_ Hw]. now apply from_dict_funcloops. }
+  assert (HnL : NoDup (map fst (map (fun kv : string * FuncLoops => (fst kv, AFuncLoops (canon_fl (snd kv)))) ls)))
+    by (rewrite map_map; exact Hnl).
+  clear Hnf Hwf Hnl Hwl.
+  cbn [option_map opt_entry app].
+  unfold from_dict_step, ser_load.
+  destruct fs as [|f0 fs0] eqn:EF; destruct ls as [|l0 ls0] eqn:EL.
+  - rewrite EP. cbn -[from_dict_n dict_of map_res combine all_of_d]. rewrite <- EP, HP. reflexivity.
+  - rewrite <- EL in *.
+    destruct (map_nonempty (fun kv : string * FuncLoops => (fst kv, funcloops_json (snd kv))) l0 ls0) as (d0 & D & HD).
+    rewrite <- EL in HD. rewrite EL at 1. cbn [app]. rewrite HD, EP.
+    cbn -[from_dict_n dict_of map_res combine all_of_d]. rewrite <- EP, HP. cbn [bind]. rewrite <- HD.
+    load_children "FuncLoops" (fun kv : string * FuncLoops => funcloops_json (snd kv))
+                  (fun kv : string * FuncLoops => AFuncLoops (canon_fl (snd kv))) HvL HkL HnL
+                  is_funcloops AFuncLoops (fun kv : string * FuncLoops => canon_fl (snd kv)) ls.
+    reflexivity.
+  - rewrite <- EF in *.
+    destruct (map_nonempty (fun kv : string * FuncResult => (fst kv, funcresult_json (snd kv))) f0 fs0) as (d0 & D & HD).
+    rewrite <- EF in HD. rewrite EF at 1. cbn [app]. rewrite HD, EP.
+    cbn -[from_dict_n dict_of map_res combine all_of_d]. rewrite <- EP, HP. cbn [bind]. rewrite <- HD.
+    load_children "FuncResult" (fun kv : string * FuncResult => funcresult_json (snd kv))
+                  (fun kv : string * FuncResult => AFuncResult (canon_fr (snd kv))) HvF HkF HnF
+                  is_funcresult AFuncResult (fun kv : string * FuncResult => canon_fr (snd kv)) fs.
+    reflexivity.
+  - rewrite <- EF, <- EL in *.
+    destruct (map_nonempty (fun kv : string * FuncResult => (fst kv, funcresult_json (snd kv))) f0 fs0) as (d0 & D & HD).
+    destruct (map_nonempty (fun kv : string * FuncLoops => (fst kv, funcloops_json (snd kv))) l0 ls0) as (e0 & E & HE).
+    rewrite <- EF in HD. rewrite <- EL in HE. rewrite EF at 1. rewrite EL at 1. cbn [app]. rewrite HD, HE, EP.
+    cbn -[from_dict_n dict_of map_res combine all_of_d]. rewrite <- EP, HP. cbn [bind]. rewrite <- HE, <- HD.
+    load_children "FuncLoops" (fun kv : string * FuncLoops => funcloops_json (snd kv))
+                  (fun kv : string * FuncLoops => AFuncLoops (canon_fl (snd kv))) HvL HkL HnL
+                  is_funcloops AFuncLoops (fun kv : string * FuncLoops => canon_fl (snd kv)) ls.
+    load_children "FuncResult" (fun kv : string * FuncResult => funcresult_json (snd kv))
+                  (fun kv : string * FuncResult => AFuncResult (canon_fr (snd kv))) HvF HkF HnF
+                  is_funcresult AFuncResult (fun kv : string * FuncResult => canon_fr (snd kv)) fs.
+    reflexivity.
 Qed.
